@@ -145,37 +145,41 @@ Theorem C20_split_unguarded_refuted :
 Proof. exact lf_split_unguarded_refuted. Qed.
 Print Assumptions C20_split_unguarded_refuted.
 
-(* the whole GET path: Uri-Query option -> coap_get_query -> handler.  No option: the full
-   listing; one option whose bytes need no percent-escaping: the listing restricted by it *)
-Theorem C20_handle_get : forall rs,
-  lf_table_ok rs = true ->
-  (len (lf_listing (lf_selected None rs)) <= lf_status_max ->
-   lf_handle_get rs [] = Lf205 (lf_listing (lf_selected None rs))) /\
-  (forall q, q <> [] -> forallb lf_unescaped_in_query q = true ->
-   len (lf_listing (lf_selected (Some q) rs)) <= lf_status_max ->
-   lf_handle_get rs [q] = Lf205 (lf_listing (lf_selected (Some q) rs))).
+(* the whole GET path: Uri-Query options -> coap_get_query (escaping) -> handler (decoding,
+   probe, full print): the body is the listing restricted by the bytes of the request's
+   Uri-Query options (joined by '&'; none: the full listing) *)
+Theorem C20_handle_get : forall rs opts,
+  lf_table_ok rs = true -> Forall wfb opts ->
+  len (lf_listing (lf_selected (lf_raw_query opts) rs)) <= lf_status_max ->
+  lf_handle_get rs opts = Lf205 (lf_listing (lf_selected (lf_raw_query opts) rs)).
 Proof. exact lf_handle_get_listing. Qed.
 Print Assumptions C20_handle_get.
 
-(* ... and in general the listing restricted by the escaped query text *)
-Theorem C20_handle_get_general : forall rs opts,
-  lf_table_ok rs = true ->
-  len (lf_listing (lf_selected (lf_get_query opts) rs)) <= lf_status_max ->
-  lf_handle_get rs opts = Lf205 (lf_listing (lf_selected (lf_get_query opts) rs)).
-Proof. exact lf_handle_get_general. Qed.
-Print Assumptions C20_handle_get_general.
+Theorem C20_raw_query_single : forall q, q <> [] -> lf_raw_query [q] = Some q.
+Proof. exact lf_raw_query_single. Qed.
+Print Assumptions C20_raw_query_single.
 
-(* open finding F20c: a filter value with a byte that coap_get_query escapes (hash, space, double quote,
-   percent, ...) is compared in its escaped form: the resource that has exactly that value is not
-   listed *)
+(* the handler's decoding is the inverse of coap_get_query's escaping *)
+Theorem C20_unescape_escape : forall opts,
+  Forall wfb opts ->
+  lf_unescape_query (lf_join_amp (map lf_escape_query opts)) = lf_join_amp opts.
+Proof. exact lf_unescape_join. Qed.
+Print Assumptions C20_unescape_escape.
+
+(* finding F20c, repaired: the handler used to filter with the escaped text - a filter value
+   with a byte that coap_get_query escapes (hash, space, double quote, percent, ...) never
+   matched; the witness on the old and on the repaired handler *)
 Theorem C20_handle_get_escaped_refuted :
   exists rs q r, lf_table_ok rs = true /\ rs = [r] /\ lf_filter_spec q r = true /\
-                 lf_handle_get rs [q] = Lf205 [].
+                 lf_handle_get_escaped rs [q] = Lf205 [] /\
+                 lf_handle_get rs [q] = Lf205 (lf_link r).
 Proof. exact lf_handle_get_escaped_refuted. Qed.
 Print Assumptions C20_handle_get_escaped_refuted.
 
-(* open finding F20d: with block mode 0 (no COAP_BLOCK_USE_LIBCOAP) a listing longer than the
-   room in one PDU is delivered cut, as a complete response *)
+(* finding F20d, repaired: with block mode 0 (no COAP_BLOCK_USE_LIBCOAP) a listing longer than
+   the room in one PDU was delivered cut, as a complete response (lf_handle_get_nolib is the
+   old branch; now every request renders the listing and block n is lf_block body szx n, to
+   which C20_blockwise_reassembly applies) *)
 Theorem C20_handle_get_nolib_refuted :
   exists rs room, lf_table_ok rs = true /\
     lf_handle_get rs [] = Lf205 (lf_listing (lf_selected None rs)) /\
